@@ -433,6 +433,9 @@ fn check_triple(t: &Triple, ctx: &mut CaseCtx<'_>) -> Result<(), String> {
     if !t.ctx.warmups.is_empty() {
         ctx.label("dirty:warmups");
     }
+    if t.ctx.stall_after_construct_ms > 0 || t.ctx.stall_mid_ms > 0 {
+        ctx.label("dirty:wall_clock_stall");
+    }
     if !t.ctx.neighbours.is_empty() {
         ctx.label("dirty:neighbour_config");
     }
@@ -551,14 +554,18 @@ fn dirty_strategy() -> impl Strategy<Value = dirty::DirtyCtx> {
         proptest::option::of(0u8..5),
         any::<bool>(),
         any::<bool>(),
+        prop_oneof![3 => Just(0u16), 1 => Just(70u16)],
+        prop_oneof![2 => Just(0u16), 1 => Just(70u16), 1 => Just(130u16)],
     )
-        .prop_map(|(warmups, held, ambient, probe_after_construct, probe_mid)| dirty::DirtyCtx {
+        .prop_map(|(warmups, held, ambient, probe_after_construct, probe_mid, stall_after_construct_ms, stall_mid_ms)| dirty::DirtyCtx {
             warmups,
             neighbours: Vec::new(),
             held,
             ambient,
             probe_after_construct,
             probe_mid,
+            stall_after_construct_ms,
+            stall_mid_ms,
         })
 }
 
